@@ -5,6 +5,7 @@
 //!   2 cpc_fn   merge_flag hip_bits lg_k num_coupons                         -> [est lb1 lb2 lb3 ub1 ub2 ub3]
 //!   3 theta_fn num_samples theta_bits no_data_seen                          -> [lb1 lb2 lb3 ub1 ub2 ub3] | ERR
 //!   7 hll_parts lg_k kxq0_bits kxq1_bits cur_min num_at_cur_min -> [raw bitmap composite]  (out-of-order estimator)
+//!   8 mc kind(0 hll,1 cpc,2 theta) lg_k variant n trials seed -> [trials sum_relerr sum_relerr^2 cover1 cover2 cover3]  (Monte Carlo)
 //! Sketch-level ops (public API only; items are the distinct integers seed*2^32 + i, i < n):
 //!   4 hll_sk   lg_k type n seed mode   mode 0 streamed, 1 serialize+deserialize, 2 union of two overlapping halves,
 //!                                      3 union of the same two halves read back from bytes
@@ -172,6 +173,71 @@ impl Family for Fam {
             7 => {
                 let r = datasketches::hll::verif_estimator_parts(a[0] as u8, f(a[1]), f(a[2]), a[3] as u8, a[4] as u32);
                 r.iter().map(|x| fbits(*x)).collect()
+            }
+            8 => {
+                // Monte Carlo: `trials` independent sketches of `n` distinct items each
+                let (kind, lg_k, variant, n, trials, seed) = (a[0], a[1] as u8, a[2], a[3] as u64, a[4] as u64, a[5] as u64);
+                let (mut sum, mut sumsq) = (0.0f64, 0.0f64);
+                let mut cover = [0u64; 3];
+                for t in 0..trials {
+                    // disjoint item ranges per trial, scrambled so that consecutive trials are unrelated streams
+                    let base = (seed.wrapping_mul(0x9E37_79B9_7F4A_7C15)).wrapping_add(t.wrapping_mul(0xD6E8_FEB8_6659_FD93));
+                    let it = |i: u64| base.wrapping_add(i.wrapping_mul(0x2545_F491_4F6C_DD1D)) as i64;
+                    let (est, lb, ub): (f64, [f64; 3], [f64; 3]) = match kind {
+                        0 => {
+                            let ty = TYPES[(variant % 3) as usize];
+                            let sk = if variant < 3 {
+                                let mut s = HllSketch::new(lg_k, ty);
+                                for i in 0..n { s.update(it(i)); }
+                                s
+                            } else {
+                                let mut s1 = HllSketch::new(lg_k, ty);
+                                let mut s2 = HllSketch::new(lg_k, ty);
+                                for i in 0..(2 * n / 3) { s1.update(it(i)); }
+                                for i in (n / 3)..n { s2.update(it(i)); }
+                                let mut u = HllUnion::new(lg_k);
+                                u.update(&s1);
+                                u.update(&s2);
+                                u.to_sketch(ty)
+                            };
+                            (sk.estimate(), SD.map(|s| sk.lower_bound(s)), SD.map(|s| sk.upper_bound(s)))
+                        }
+                        1 => {
+                            let mut s = CpcSketch::new(lg_k);
+                            if variant == 0 {
+                                for i in 0..n { s.update(it(i)); }
+                            } else {
+                                let mut s2 = CpcSketch::new(lg_k);
+                                for i in 0..(2 * n / 3) { s.update(it(i)); }
+                                for i in (n / 3)..n { s2.update(it(i)); }
+                                let mut u = CpcUnion::new(lg_k);
+                                u.update(&s);
+                                u.update(&s2);
+                                s = u.to_sketch();
+                            }
+                            (s.estimate(), SD.map(|k| s.lower_bound(k)), SD.map(|k| s.upper_bound(k)))
+                        }
+                        _ => {
+                            let p = [1.0f32, 0.5, 0.1, 0.01][(variant % 4) as usize];
+                            let mut s = ThetaSketch::builder().lg_k(lg_k).sampling_probability(p).build();
+                            for i in 0..n { s.update(it(i)); }
+                            if variant >= 4 {
+                                let c = s.compact(true);
+                                (c.estimate(), SD.map(|k| c.lower_bound(k)), SD.map(|k| c.upper_bound(k)))
+                            } else {
+                                (s.estimate(), SD.map(|k| s.lower_bound(k)), SD.map(|k| s.upper_bound(k)))
+                            }
+                        }
+                    };
+                    let truth = n as f64;
+                    let re = if n == 0 { est } else { est / truth - 1.0 };
+                    sum += re;
+                    sumsq += re * re;
+                    for j in 0..3 {
+                        if lb[j] <= truth && truth <= ub[j] { cover[j] += 1; }
+                    }
+                }
+                vec![trials as i128, fbits(sum), fbits(sumsq), cover[0] as i128, cover[1] as i128, cover[2] as i128]
             }
             _ => panic!("bounds: unknown op {code}"),
         }
